@@ -35,6 +35,28 @@ theorem default_protect_true : Gen.credProtectProtocolDefault = true := by decid
 /-- the attribute names git-lfs itself uses as keys contain neither `=` nor LF -/
 theorem input_keys_safe : ∀ k ∈ Gen.credInputKeys, (61 : UInt8) ∉ k ∧ (10 : UInt8) ∉ k := by decide
 
+/-- protection follows the URL being authenticated, not the history of the shared helper: after any
+    sequence of earlier exchanges on the same context (other hosts with protection switched off …),
+    `GetCredentialHelper(url)` followed by a fill refuses exactly what `url`'s setting demands -/
+theorem protection_follows_current_url (f0 : Bool) (hist : List CtxOp) (cfg : Option Bool) (c : Creds) :
+    (ctxRun Gen.credProtectProtocolDefault f0 (hist ++ [.get cfg, .fill c])).getLast?
+      = some (buffer (cfg.getD Gen.credProtectProtocolDefault) c) :=
+  Cr.fill_after_get _ f0 hist cfg c
+
+/-- … in particular a CR-bearing value is refused on a protected URL even right after an
+    unprotected one was served on the same context -/
+theorem cr_refused_after_unprotected_url (c0 c : Creds) (h : ∃ kv ∈ pairs c, kv.2.contains 13) :
+    (ctxRun Gen.credProtectProtocolDefault true [.get (some false), .fill c0, .get none, .fill c]).getLast? = some none := by
+  have := protection_follows_current_url true [.get (some false), .fill c0] none c
+  simp only [List.cons_append, List.nil_append] at this
+  rw [this]
+  have hd : Gen.credProtectProtocolDefault = true := by decide
+  simp only [Option.getD_none, hd]
+  congr 1
+  rw [Cr.reject_iff]
+  obtain ⟨kv, hm, hc⟩ := h
+  exact ⟨kv, hm, Or.inr (Or.inl ⟨rfl, hc⟩)⟩
+
 /-- non-vacuity: a clean two-key map is accepted; the same map with an LF in the host is refused -/
 example : (buffer true [([104], [[97, 98]]), ([112], [[120]])]).isSome = true := by decide
 example : buffer true [([104], [[97, 10, 98]])] = none := by decide
